@@ -231,6 +231,42 @@ func runC16(c *fw.Case) {
 		}
 		legacyMinter.MinterConfig.Minters = append(legacyMinter.MinterConfig.Minters, lm)
 	}
+	// one staged state in ten carries legacy sub-distributors that do not satisfy today's rules
+	// (the legacy store was never validated against them): the upgrade may refuse to run, but it
+	// must not report success and leave parameters behind that fail validation
+	legacySds := cloneSubs(sds)
+	invalidLegacy := ""
+	if r.Intn(10) == 0 && len(legacySds) > 0 {
+		switch r.Intn(3) {
+		case 0:
+			legacySds[0].Destinations.BurnShare = sdk.NewDecWithPrec(15, 1) // shares on another scale
+			invalidLegacy = "burn share 1.5"
+		case 1:
+			dup := cloneSubs(legacySds[:1])[0]
+			legacySds = append(legacySds, dup)
+			invalidLegacy = "duplicate sub-distributor"
+		default:
+			last := cloneSubs(legacySds[len(legacySds)-1:])[0]
+			last.Name = "dangling"
+			last.Destinations.Shares = nil
+			last.Destinations.PrimaryShare = disttypes.Account{Type: disttypes.InternalAccount, Id: "never-drained"}
+			legacySds = append(legacySds, last)
+			invalidLegacy = "internal account never drained"
+		}
+		if (disttypes.Params{SubDistributors: legacySds}).Validate() == nil {
+			legacySds, invalidLegacy = cloneSubs(sds), ""
+		}
+	}
+	// ... and one in twelve an emission schedule that breaks them (the last period has an end)
+	invalidLegacyMinter := false
+	if invalidLegacy == "" && r.Intn(12) == 0 && len(legacyMinter.MinterConfig.Minters) > 0 {
+		lastM := *legacyMinter.MinterConfig.Minters[len(legacyMinter.MinterConfig.Minters)-1]
+		end := gen.Epoch.Add(100 * 365 * 24 * time.Hour)
+		lastM.EndTime = &end
+		legacyMinter.MinterConfig.Minters[len(legacyMinter.MinterConfig.Minters)-1] = &lastM
+		invalidLegacyMinter = true
+		invalidLegacy = "last emission period has an end time"
+	}
 	stageErr := func() (err error) {
 		defer func() {
 			if rec := recover(); rec != nil {
@@ -241,13 +277,23 @@ func runC16(c *fw.Case) {
 		if !ms.HasKeyTable() {
 			ms = ms.WithKeyTable(minttypes.ParamKeyTable())
 		}
-		ms.SetParamSet(ctx, &legacyMinter)
+		if invalidLegacyMinter {
+			ms.Set(ctx, minttypes.KeyMintDenom, legacyMinter.MintDenom)
+			ms.Set(ctx, minttypes.KeyMinterConfig, legacyMinter.MinterConfig)
+		} else {
+			ms.SetParamSet(ctx, &legacyMinter)
+		}
 		ds := app.GetSubspace(disttypes.ModuleName)
 		if !ds.HasKeyTable() {
 			ds = ds.WithKeyTable(disttypes.ParamKeyTable())
 		}
-		dp := disttypes.Params{SubDistributors: cloneSubs(sds)}
-		ds.SetParamSet(ctx, &dp)
+		if invalidLegacy != "" {
+			// written the way the previous version stored whatever it had been given
+			ds.Set(ctx, disttypes.KeySubDistributors, cloneSubs(legacySds))
+		} else {
+			dp := disttypes.Params{SubDistributors: cloneSubs(legacySds)}
+			ds.SetParamSet(ctx, &dp)
+		}
 		vs := app.GetSubspace(vesttypes.ModuleName)
 		if !vs.HasKeyTable() {
 			vs = vs.WithKeyTable(vesttypes.ParamKeyTable())
@@ -277,8 +323,15 @@ func runC16(c *fw.Case) {
 	c.Describe(totalLocked.String(), len(prePools)) // distinct by staged state, not only by its shape
 	// ---- run the registered upgrade handler ----
 	if p := safeCall("ApplyUpgrade", func() { app.UpgradeKeeper.ApplyUpgrade(ctx, upgradetypes.Plan{Name: v120.UpgradeName, Height: 100}) }); p != nil {
+		if invalidLegacy != "" {
+			c.Count("upgrades_refused_for_invalid_legacy_params", 1)
+			return
+		}
 		c.ViolateD("C16/upgrade-panic/"+panicKey(p.Stack), map[string]string{"panic": short(p.Value, 500), "stack": short(p.Stack, 3000)}, "the v1.2.0 upgrade handler panicked / failed: %s", short(p.Value, 300))
 		return
+	}
+	if invalidLegacy != "" {
+		c.Count("upgrades_run_with_invalid_legacy_params", 1)
 	}
 	c.Count("upgrades_run", 1)
 	// ---- post-state ----
@@ -396,11 +449,25 @@ func runC16(c *fw.Case) {
 			c.Violate("C16/trace-missing", "trace of %s is missing after the upgrade", a)
 		}
 	}
+	// lineage recorded by the upgrade (C17 on the upgrade path): the staged trace of a listed
+	// genesis address is marked genesis, that of a listed pool recipient from-genesis-pool,
+	// every other staged trace stays unmarked
+	for _, t := range app.CfevestingKeeper.GetAllVestingAccountTrace(ctx) {
+		wantGenesis := c16ListedGenesis[t.Address]
+		wantFromPool := c16ListedFromPool[t.Address]
+		if t.Genesis != wantGenesis || t.FromGenesisPool != wantFromPool || t.FromGenesisAccount {
+			c.ViolateD("C17/upgrade-lineage-flags", map[string]string{"trace": t.String()}, "after the upgrade the trace of %s has genesis=%v from_genesis_pool=%v from_genesis_account=%v, expected genesis=%v from_genesis_pool=%v", t.Address, t.Genesis, t.FromGenesisPool, t.FromGenesisAccount, wantGenesis, wantFromPool)
+		}
+		c.Count("upgrade_lineage_flags_checked", 1)
+	}
 	if got := app.CfevestingKeeper.GetVestingAccountTraceCount(ctx); got != uint64(len(traces)) {
 		c.Violate("C16/trace-count", "trace count %d after the upgrade, %d before", got, len(traces))
 	}
 	// params
 	mp := app.CfeminterKeeper.GetParams(ctx)
+	if v := minterRulesViolation(mp); v != "" {
+		c.Violate("C16/minter-params-invalid", "migrated minter params break a validation rule (legacy: %s): %s", invalidLegacy, v)
+	}
 	if err := mp.Validate(); err != nil {
 		c.Violate("C16/minter-params-invalid", "migrated minter params fail validation: %v", err)
 	}
@@ -430,7 +497,10 @@ func runC16(c *fw.Case) {
 	if err := dp.Validate(); err != nil {
 		c.Violate("C16/distributor-params-invalid", "migrated distributor params fail validation: %v", err)
 	}
-	if fmt.Sprint(toModelSubsStrings(dp.SubDistributors)) != fmt.Sprint(toModelSubsStrings(sds)) {
+	if v := distRulesViolation(dp.SubDistributors); v != "" {
+		c.Violate("C16/distributor-params-invalid", "migrated distributor params break a validation rule (legacy: %s): %s", invalidLegacy, v)
+	}
+	if fmt.Sprint(toModelSubsStrings(dp.SubDistributors)) != fmt.Sprint(toModelSubsStrings(legacySds)) {
 		c.Violate("C16/distributor-params-changed", "migrated sub-distributors differ from the legacy ones")
 	}
 	if app.CfevestingKeeper.GetParams(ctx).Denom != vDenom {
@@ -444,6 +514,9 @@ func runC16(c *fw.Case) {
 	}
 	c.Max("max_owners", int64(nOwners))
 	c.Nontrivial(withOwner && ownerPools >= 2 && nOwners >= 20)
+	if c.Property == "C16" {
+		c.KeepViolations("C16/")
+	}
 	c.Sample(map[string]interface{}{"owners": nOwners, "pools": len(prePools), "hardcoded_owner": withOwner, "validators_pool_locked": fmt.Sprint(valLocked), "validators_type": withValidatorsType, "split_applied": splitApplied, "shifted_accounts": len(shiftPre)})
 }
 
@@ -461,4 +534,19 @@ func toModelSubsStrings(sds []disttypes.SubDistributor) []string {
 		out = append(out, sd.Name+"|"+fmt.Sprint(parts)+"|burn="+sd.Burn.FloatString(18)+"|primary="+sd.Primary.Key())
 	}
 	return out
+}
+
+// the addresses the v1.2.0 upgrade is documented to mark (restated here, not imported)
+var c16ListedGenesis = map[string]bool{
+	"c4e1z5h0squtynr8rhwl0mzqdcd0wgmfyvpqmx3y2r": true, "c4e1x6umuffxgcrgqqqdncwn2t8qdnc2muvultxmza": true, "c4e1wrhuuwjjmkjx3lxs08ych9ddgdzvujgdr6hnwv": true,
+	"c4e12rxujjj4th90t8z30gnre5tv4zmguuqvtn2u02": true, "c4e1zvkxuvk8t6wju76pxkp3f4kk447sjm2kdsgvwy": true, "c4e13qamrx863pa72ku88d3ykypdh0ar6rjycnpkl2": true,
+	"c4e1f57wax48ttw068e6lgag9fse62d4m3e24u0sph": true, "c4e1jxlv64qf8rvy8zayl7m2m8a0jzhxkfj9aw96f3": true, "c4e1cpnh73765mx3q87lxacqwvwxn4s8ppry458xp4": true,
+	"c4e1argfhnzzxjft426tnj4crjsu8lqp0av3x8gjey": true, "c4e1w8hdxd6g7vzupll9ynmenjkln9rs4kcq0mdesf": true, "c4e12znccp5u8zx9qy4u9gmpxjge9reaxy80qfm295": true,
+	"c4e1t45l2pnk5uwj2qqjw4f6rcy6jw5f9lkplmp49e": true, "c4e1nmfgexjj3yvvrnc2n7yyahgxsm0vqcm57dqx5f": true, "c4e1ej2es5fjztqjcd4pwa0zyvaevtjd2y5wq2vaaq": true,
+	"c4e1dsm96gwcv35m4rqd93pzcsztpkrqe0ev7getj8": true, "c4e10wjj2qmn4zjg2sdxq9mfyj5v4yukwyhzdtf2zp": true, "c4e1zrd0783g8qa5659apw5tpuqmz2ct6j20t4ymx3": true,
+	"c4e1y8lndj6jz5z93g4xd05nmwyc3wtn39dfgfx7r7": true, "c4e12845qa79cwlvf3jdcnfq2jy2jfmzslcg52lv3g": true,
+}
+var c16ListedFromPool = map[string]bool{
+	"c4e13e303u43k7mng4927axuhve0plgsyxc4xky63k": true, "c4e1twh6302lzcvn7lr3x0fjwfkgryn9ac5c6v2zaj": true, "c4e19je7lmu4yzrpzh7gksj3uhku4as8at6lk36qe7": true,
+	"c4e1nm50zycnm9yf33rv8n6lpks24usxzahk5usl7e": true,
 }
